@@ -191,6 +191,24 @@ pub fn make_seed(version: u32, sections: &[&'static str], n: usize, k: usize, va
     s
 }
 
+/// Sections with key-less records next to sections that carry key frames: `keyless` sections get
+/// `n0` records whose animated values are all empty (default header), `keyed` sections `n1`
+/// records with `k` key frames (populated / empty values mixed as in `make_seed`).
+pub fn make_mixed(version: u32, keyless: &[&'static str], keyed: &[&'static str], n0: usize, n1: usize, k: usize) -> Seed {
+    let mut s = make_seed(version, keyed, n1, k, 0);
+    let e = make_seed(version, keyless, n0, 0, 0);
+    for (sec, recs) in e.tracks {
+        s.tracks.insert(sec, recs);
+    }
+    if keyless.contains(&"events") {
+        s.events = e.events;
+    }
+    if keyless.contains(&"views") {
+        s.views = e.views;
+    }
+    s
+}
+
 fn fixed_fields(sec: &str, i: usize, version: u32) -> (Vec<u8>, Vec<u8>) {
     // (bytes before the animated values, bytes after them); interleaved bases handled by caller
     let mut a = vec![];
